@@ -398,17 +398,23 @@ func (R *Repository) updateCrlEntry(entry *Entry, newChains *core.CertificateCha
 	}
 	R.logger.Info("verify crl signature of crl " + entry.CRLLoader.GetDescription())
 	verifhook.Hit("repo.refresh.parsed", R, entry)
-	signatureCert, err := verifyCRLSignature(result, chains)
-	if err != nil {
-		R.setLastSignatureVerifyFailed(entry, result)
-		return err
-	} else {
-		R.resetLastSignatureVerifyFailed(entry)
-	}
-
-	err = processor.UpdateSignatureCertificate(signatureCert)
-	if err != nil {
-		return err
+	//the signature validation mode applies to updates exactly like it applies to the first load
+	if R.crlConfig.SignatureValidationModeParsed != config.SignatureValidationModeNone {
+		signatureCert, err := verifyCRLSignature(result, chains)
+		if err != nil {
+			R.logger.Warn("could not validate signature of crl", zap.String("crl", entry.CRLLoader.GetDescription()))
+			if R.crlConfig.SignatureValidationModeParsed == config.SignatureValidationModeVerify {
+				R.setLastSignatureVerifyFailed(entry, result)
+				return err
+			}
+			R.resetLastSignatureVerifyFailed(entry)
+		} else {
+			R.resetLastSignatureVerifyFailed(entry)
+			err = processor.UpdateSignatureCertificate(signatureCert)
+			if err != nil {
+				return err
+			}
+		}
 	}
 
 	verifhook.Hit("repo.refresh.swapping", R, entry)
